@@ -1188,6 +1188,14 @@ def _capture_special(prop):
          "a.into_iter().filter(d0).filter_map(d1).find(d2)", "Option<u8>", 5),
         ("find_map_partition", "a.into_iter() ?&!> %s" % cap(1, 0, 1, 0, cl(1, 0, 1, "*x > 3", "x: &u8")),
          ["let d0 = %s;" % cap(1, 0, 1, 0, cl(1, 0, 1, "*x > 3", "x: &u8"))], "a.into_iter().partition(d0)", "(Acc, Acc)", 5),
+        # block operands INSIDE the per-item predicate wrappers (`?> >>>`, `?@ >>>`, `?&!> >>>`): evaluated once, before the
+        # step - not once per item inside the wrapper's closure
+        ("filter_wrapper_capture", "a.into_iter() ?> >>> -> %s <<< %s" % (cap(1, 0, 2, 0, cl(1, 0, 2, "*x > 1", "x: &u8")), SUM),
+         ["let d0 = %s;" % cap(1, 0, 2, 0, cl(1, 0, 2, "*x > 1", "x: &u8"))], "a.into_iter().filter(|v| d0(v))%s" % SUMC, "u8", 5),
+        ("find_wrapper_capture", "a.into_iter() ?@ >>> -> %s <<<" % cap(1, 0, 2, 0, cl(1, 0, 2, "*x > 4", "x: &u8")),
+         ["let d0 = %s;" % cap(1, 0, 2, 0, cl(1, 0, 2, "*x > 4", "x: &u8"))], "a.into_iter().find(|v| d0(v))", "Option<u8>", 5),
+        ("partition_wrapper_capture", "a.into_iter() ?&!> >>> -> %s <<<" % cap(1, 0, 2, 0, cl(1, 0, 2, "*x > 3", "x: &u8")),
+         ["let d0 = %s;" % cap(1, 0, 2, 0, cl(1, 0, 2, "*x > 3", "x: &u8"))], "a.into_iter().partition(|v| d0(v))", "(Acc, Acc)", 5),
         # a LABELLED block is a block too (syn: Expr::Block with a label): hoisted like any other
         ("labeled_block", "Some(a1) |> 'l: { ev(code(K_CAP, 1, 0, 2)); break 'l %s }" % cl(1, 0, 1, "x.wrapping_add(2)"),
          ["let d0 = 'l: { ev(code(K_CAP, 1, 0, 2)); break 'l %s };" % cl(1, 0, 1, "x.wrapping_add(2)")],
